@@ -17,7 +17,7 @@ RULE = ("collections of 1..12 interval-valued items (ties, identical intervals, 
 ASSUMPTIONS = ["items tighten soundly: every step keeps the hidden value inside the interval and moves at least one end by >= 1",
                "initial_bounds handed to the search, when given, contain the true minimum (the documented precondition)",
                "step budget = 50*(sum of initial widths + n^2) + 1000 calls; exceeding it is reported as non-termination"]
-MINIMUMS = {"quick": {"api_search": 5000, "api_stepped": 5000, "api_sort": 5000, "api_min": 5000, "api_distinct": 5000,
+MINIMUMS = {"quick": {"cases_with_falsy_items": 10000, "api_search": 5000, "api_stepped": 5000, "api_sort": 5000, "api_min": 5000, "api_distinct": 5000,
                       "item_tighten_calls": 100000},
             "thorough": {"api_search": 100000, "api_stepped": 100000, "api_sort": 100000, "api_min": 100000,
                          "api_distinct": 100000, "item_tighten_calls": 2000000}}
@@ -84,6 +84,14 @@ class Item:
 
     def __repr__(self):
         return f"Item{self.name}(v={self.v},[{self.lb},{self.ub}],{self.sched})"
+
+
+class EmptyItem(Item):
+    """An item that is falsy, as an edit collection without sub-edits is (len() == 0): being there and being truthy differ."""
+    __slots__ = ()
+
+    def __len__(self):
+        return 0
 
 
 def plan(tier, seed):
@@ -153,8 +161,12 @@ def gen_cases(spec, ctx):
         # (Observed and recorded in DESIGN.md: sound initial bounds whose upper end equals the true
         # minimum make the search prune the answer itself and return None.)
         init = None
+        falsy = r.random() < 0.3
         for api in APIS:
-            yield {"items": items, "api": api, "init": init}
+            c = {"items": items, "api": api, "init": init}
+            if falsy:
+                c["falsy"] = True
+            yield c
 
 
 def check(case, ctx):
@@ -165,7 +177,11 @@ def check(case, ctx):
     width = sum(1 if it[3] == "jump" else min(it[2] - it[1], 124) if it[3] == "random" else it[2] - it[1] for it in spec_items)
     budget = [50 * (width + n * n) + 1000]
     start = budget[0]
-    items = [Item(i, it[0], it[1], it[2], it[3], it[4], budget) for i, it in enumerate(spec_items)]
+    # (in "falsy" cases every other item, starting with the first, has len() == 0)
+    items = [(EmptyItem if case.get("falsy") and i % 2 == 0 else Item)(i, it[0], it[1], it[2], it[3], it[4], budget)
+             for i, it in enumerate(spec_items)]
+    if ctx is not None and case.get("falsy"):
+        ctx.count("cases_with_falsy_items")
     minv = min(it.v for it in items)
     api = case["api"]
     diags = []
